@@ -222,14 +222,18 @@ def shard(prop: str, tier: str, seed: int, n: int) -> dict[str, Any]:
     return c.export()
 
 
-CANCEL_SWEEP = ("chain", "diamond", "multitask", "before", "after", "gate", "loop2", "cof")
+CANCEL_SWEEP = ("chain", "diamond", "multitask", "before", "after", "gate", "loop2", "cof", "syn-skipped-parent")
 
 
 def shard_cancel_sweep(prop: str, tier: str, seed: int, name: str) -> dict[str, Any]:
     """The cancel at every delivery position of the FIFO run, the fan-out then delivered in order and with one message type
     held back (so the cancel reaches a task through its own RunTask / CompleteTask before - or after - the CancelStage)."""
     c = Campaign(prop, tier, seed, LEVEL)
-    spec = core_corpus()[name]
+    spec = core_corpus().get(name)
+    if spec is None:
+        from checks import c17
+
+        spec = c17.sweep_specs()[name]
     steps = Run(spec, make_schedule({"style": "fifo", "d": [], "R": 2}), events=True).drain().steps
     sds = [{"style": "fifo", "d": [], "R": 2}]
     for hold, hf in (("CancelStage", 3), ("CancelStage", 12), ("RunTask", 4), ("CompleteStage", 4), ("CompleteTask", 4), ("StartTask", 4)):
@@ -255,7 +259,7 @@ def run(c: Campaign, jobs: int) -> None:
     args = [(shard, (c.prop, c.tier, c.seed * 1000 + k, max(1, n // shards))) for k in range(shards)]
     args += [(shard_cancel_sweep, (c.prop, c.tier, c.seed, name)) for name in CANCEL_SWEEP]
     run_shards(c, _dispatch, args, jobs)
-    c.exhaustive_parts.append("cancel injected before every delivery position of the FIFO run of 8 corpus workflows, fan-out delivered in order and with one message type held back")
+    c.exhaustive_parts.append("cancel injected before every delivery position of the FIFO run of 9 workflows, fan-out delivered in order and with one message type held back")
     c.exhaustive_parts.append("per run: every prefix length of the workflow's event log and every snapshot position")
     c.rule = ("case = (spec, crash-free schedule, optional injected cancel / signal); per case every event-log prefix and every snapshot position "
               "is checked. Non-trivial = the log contains a failure / skip / cancel event or the spec loops. Distinct = hash of the case.")
